@@ -4619,9 +4619,13 @@ gboolean conn_check_handle_inbound_stun (NiceAgent *agent, NiceStream *stream,
   valid = stun_agent_validate (&component->stun_agent, &req,
       (uint8_t *) buf, len, conncheck_stun_validater, &validater_data);
 
-  /* Check for discovery candidates stun agents */
-  if (valid == STUN_VALIDATION_BAD_REQUEST ||
-      valid == STUN_VALIDATION_UNMATCHED_RESPONSE) {
+  /* Check for discovery candidates stun agents. They only ever wait for
+   * answers: a request or an indication must not be validated by them, they
+   * hold no credentials. */
+  if ((valid == STUN_VALIDATION_BAD_REQUEST ||
+          valid == STUN_VALIDATION_UNMATCHED_RESPONSE) &&
+      (stun_message_get_class (&req) == STUN_RESPONSE ||
+          stun_message_get_class (&req) == STUN_ERROR)) {
     for (i = agent->discovery_list; i; i = i->next) {
       CandidateDiscovery *d = i->data;
       if (d->stream_id == stream->id && d->component_id == component->id &&
@@ -4641,9 +4645,11 @@ gboolean conn_check_handle_inbound_stun (NiceAgent *agent, NiceStream *stream,
       }
     }
   }
-  /* Check for relay refresh stun agents */
-  if (valid == STUN_VALIDATION_BAD_REQUEST ||
-      valid == STUN_VALIDATION_UNMATCHED_RESPONSE) {
+  /* Check for relay refresh stun agents (answers only, as above) */
+  if ((valid == STUN_VALIDATION_BAD_REQUEST ||
+          valid == STUN_VALIDATION_UNMATCHED_RESPONSE) &&
+      (stun_message_get_class (&req) == STUN_RESPONSE ||
+          stun_message_get_class (&req) == STUN_ERROR)) {
     for (i = agent->refresh_list; i; i = i->next) {
       CandidateRefresh *r = i->data;
 
